@@ -67,6 +67,7 @@ theorem validateU_facts (target : MG Name) (ds : List Domain) (e : Event) (h : v
   obtain ⟨_, h⟩ := ite_error_ok h
   obtain ⟨_, h⟩ := ite_error_ok h
   obtain ⟨_, h⟩ := ite_error_ok h
+  obtain ⟨_, h⟩ := ite_error_ok h
   obtain ⟨h8, h⟩ := ite_error_ok h
   obtain ⟨h9, h⟩ := ite_error_ok h
   obtain ⟨h10, h⟩ := ite_error_ok h
@@ -83,6 +84,22 @@ theorem validateU_facts (target : MG Name) (ds : List Domain) (e : Event) (h : v
     simp only [List.any_eq_true, not_exists, not_and, Bool.not_eq_eq_eq_not, Bool.not_true,
       Bool.not_eq_false] at h9
     exact h9 d hd
+
+/-- check 6.5 of the unconditional validator (`fix:` 333fa44): in an accepted event every self-intervened variable has a
+value -/
+theorem validateU_selfNone (target : MG Name) (ds : List Domain) (e : Event) (h : validateU target ds e = .ok ()) :
+    ∀ p ∈ e, selfIntervened p.1 = true → p.2 ≠ none := by
+  unfold validateU vErr at h
+  obtain ⟨_, h⟩ := ite_error_ok h
+  unfold validateCommon vErr at h
+  obtain ⟨_, h⟩ := ite_error_ok h
+  obtain ⟨_, h⟩ := ite_error_ok h
+  obtain ⟨_, h⟩ := ite_error_ok h
+  obtain ⟨hsn, _⟩ := ite_error_ok h
+  intro p hp hs hnone
+  apply hsn
+  unfold selfNone
+  exact List.any_eq_true.2 ⟨p, hp, by rw [hnone, hs]; rfl⟩
 
 /-! ### the hypotheses on the event and on the domain graphs that the validator does NOT check -/
 
@@ -128,20 +145,19 @@ theorem domainOK_of_accepted (target : MG Name) (d : Domain) (hwf : d.graph.WF)
 
 theorem afterValidation_ok_eq {α} (a : α) : afterValidation (.ok a : Except Err α) = .ok a := rfl
 
-/-- **Algorithm 2 never raises outside the crash class** (model-level statement of the clause "never another error").
-For an input accepted by the procedure's own validator, on graphs built by `from_edges`, the result of `ctfTRu` is an
-answer or FAIL provided
-* the event is outside the class on which SIMPLIFY raises (`SimplifyRisk`: a self-intervened `Y_y` together with a
-  valueless variable named `Y`; implied by the complement of the known class `reflexive ∧ has_none`),
+/-- **Algorithm 2 never raises** (model-level statement of the clause "never another error"; after `fix:` c8cad49 and
+333fa44 no class of events is excluded: the validator rejects a valueless self-intervened variable, and SIMPLIFY accepts
+`Y_y` next to a valueless `Y`).  For an input accepted by the procedure's own validator, on graphs built by `from_edges`,
+the result of `ctfTRu` is an answer or FAIL provided
 * `EventVarsPlain`: no event variable is an `Intervention` or carries a value mark of its own (guaranteed by the
   public entry point, which builds the event with `_event_from_counterfactuals`), subscript lists are duplicate free
   (the representation invariant of a `frozenset`),
 * `DomainsAgree`: every selection diagram keeps the bidirected edges of the target graph between policy-free
   variables and has no bidirected edge at a selection node (the validator compares a domain graph with the target
   only when it is the target domain itself; Algorithm 4 raises `ValueError` / `KeyError` otherwise). -/
-theorem ctfTRu_total_of_risk (target : MG Name) (ds : List Domain) (e : Event)
+theorem ctfTRu_total (target : MG Name) (ds : List Domain) (e : Event)
     (hv : validateU target ds e = .ok ()) (hwf : target.WF) (hds : ∀ d ∈ ds, d.graph.WF)
-    (hrisk : SimplifyRisk e = false) (hplain : EventVarsPlain e) (hdom : DomainsAgree target ds) :
+    (hplain : EventVarsPlain e) (hdom : DomainsAgree target ds) :
     ∀ err, ctfTRu target ds e ≠ .error err := by
   obtain ⟨hne, hac, hnodes, hseq, hvd⟩ := validateU_facts target ds e hv
   have hloop : ∀ v, ¬ target.DiEdge v v := fun v hvv =>
@@ -153,8 +169,9 @@ theorem ctfTRu_total_of_risk (target : MG Name) (ds : List Domain) (e : Event)
   unfold ctfTRu ctfTRuCore
   rw [hv]
   simp only [bind, Except.bind]
-  obtain ⟨o, hs⟩ := simplify_total_of_risk target hwf e hnodes
-    (fun p hp => by simp [validEventVar, (hplain p hp).1]) (fun p hp => (hplain p hp).2.2) hrisk
+  obtain ⟨o, hs⟩ := simplify_total target hwf e hnodes
+    (fun p hp => by simp [validEventVar, (hplain p hp).1]) (fun p hp => (hplain p hp).2.2)
+    (validateU_selfNone target ds e hv)
   rw [hs]
   cases o with
   | none => exact ⟨_, rfl⟩
@@ -189,11 +206,17 @@ theorem ctfTRu_total_of_risk (target : MG Name) (ds : List Domain) (e : Event)
       | none => exact ⟨_, rfl⟩
       | some qs => exact ⟨_, rfl⟩
 
-/-- the same with the harness's class `reflexive ∧ has_none` (`crash:simplify-typeerror`) -/
+/-- the former statements with a class hypothesis (no longer needed) -/
+theorem ctfTRu_total_of_risk (target : MG Name) (ds : List Domain) (e : Event)
+    (hv : validateU target ds e = .ok ()) (hwf : target.WF) (hds : ∀ d ∈ ds, d.graph.WF)
+    (_hrisk : SimplifyRisk e = false) (hplain : EventVarsPlain e) (hdom : DomainsAgree target ds) :
+    ∀ err, ctfTRu target ds e ≠ .error err :=
+  ctfTRu_total target ds e hv hwf hds hplain hdom
+
 theorem ctfTRu_total_of_class (target : MG Name) (ds : List Domain) (e : Event)
     (hv : validateU target ds e = .ok ()) (hwf : target.WF) (hds : ∀ d ∈ ds, d.graph.WF)
-    (hcls : CrashClassU e = false) (hplain : EventVarsPlain e) (hdom : DomainsAgree target ds) :
+    (_hcls : CrashClassU e = false) (hplain : EventVarsPlain e) (hdom : DomainsAgree target ds) :
     ∀ err, ctfTRu target ds e ≠ .error err :=
-  ctfTRu_total_of_risk target ds e hv hwf hds (simplifyRisk_false_of_crashClass e hcls) hplain hdom
+  ctfTRu_total target ds e hv hwf hds hplain hdom
 
 end Y0.CtfTr
